@@ -129,10 +129,17 @@ func CanDescend(v any) bool {
 }
 
 // StringKeyedMap copies a map whose keys are of a string kind (map[string]string,
-// type H map[string]any, ...) into a map[string]any. The second result is false
+// type H map[string]any, a pointer to one, ...) into a map[string]any. The second result is false
 // for everything else, a nil map included.
 func StringKeyedMap(data any) (map[string]any, bool) {
 	rv := reflect.ValueOf(data)
+	// A pointer to a map is the map, as it is for paths and loops
+	for depth := 0; rv.Kind() == reflect.Pointer; depth++ {
+		if rv.IsNil() || depth >= MaxPointerDepth {
+			return nil, false
+		}
+		rv = rv.Elem()
+	}
 	if rv.Kind() != reflect.Map || rv.Type().Key().Kind() != reflect.String || rv.IsNil() {
 		return nil, false
 	}
